@@ -687,6 +687,12 @@ class Gen:
                 return None
             o["indicator"] = rng.choice(cands)["id"]
             o["weight"] = rng.choice([1, 1, 2, 3])
+            if spec["objectives"]:
+                # a second or later term of a weighted sum may carry a negative weight (about one in
+                # three; decided from a digest, not from the PRNG: the other plans of a seed stay as they were)
+                import zlib
+                if zlib.crc32(repr((o["indicator"], o["weight"], len(spec["tasks"]), spec.get("horizon"))).encode()) % 3 == 0:
+                    o["weight"] = -o["weight"]
         return o
 
 
